@@ -96,6 +96,11 @@ type world struct {
 	encUser    *sm9.EncryptPrivateKey // uid "alice", hid 3
 	encUserB   *sm9.EncryptPrivateKey // uid "bob", hid 3
 	uidB       []byte
+
+	// the context grid (context.go): full = every value of every dimension (thorough tier); shaped = artefacts of
+	// the grid the library's own producer panicked on, replaced by shaped ones
+	full   bool
+	shaped []string
 }
 
 type seedErr struct{ err error }
